@@ -28,6 +28,11 @@ PROPS = {
 }
 
 
+def out_root():
+    """Where evidence/ and replays/ go: /verif, unless a self-test redirects them."""
+    return os.environ.get("VERIF_OUT") or VERIF_ROOT
+
+
 def load_known():
     p = os.path.join(VERIF_ROOT, "known_findings.json")
     if not os.path.exists(p):
@@ -228,8 +233,8 @@ def check_main(prop, tier, seed):
         rc = 0
         replay_paths = []
         for v in violations[:3]:
-            os.makedirs(os.path.join(VERIF_ROOT, "replays"), exist_ok=True)
-            path = os.path.join(VERIF_ROOT, "replays",
+            os.makedirs(os.path.join(out_root(), "replays"), exist_ok=True)
+            path = os.path.join(out_root(), "replays",
                                 f"{prop}-{seed}-{v.get('run_index', 0)}-{v['violation']['class']}.json")
             write_json(path, v)
             replay_paths.append(path)
@@ -237,8 +242,8 @@ def check_main(prop, tier, seed):
             print(f"  class={v['violation']['class']}: {v['violation']['message']}")
             rc = 1
         ev = mod.evidence(stats, samples, plan, tier, seed, wall, len(violations), known_hits, nworkers)
-        os.makedirs(os.path.join(VERIF_ROOT, "evidence"), exist_ok=True)
-        write_json(os.path.join(VERIF_ROOT, "evidence", f"{prop}.json"), ev)
+        os.makedirs(os.path.join(out_root(), "evidence"), exist_ok=True)
+        write_json(os.path.join(out_root(), "evidence", f"{prop}.json"), ev)
         if harness_errors:
             for h in harness_errors:
                 eprint("HARNESS-ERROR:", h)
